@@ -361,6 +361,17 @@ class Run:
 
     def fail(self, key, what, **inp):
         """A concrete failing input/state/history of the property on the implementation."""
+        # A real run aborted by the listed one-point-cluster finding (LinAlgError inside ModeStatistics.from_particles) is the
+        # business of C14 / C18, where it is listed with its reproducers; for every other property such a run is an inconclusive
+        # case (everything it did before aborting has been checked), counted in the evidence, not a failure of that property.
+        import traceback as _tb
+        et, ev, tb = sys.exc_info()
+        if ev is not None and type(ev).__name__ == "LinAlgError" and self.pid not in ("C14", "C18") \
+                and key != "single-point-cluster-singular-scale":
+            txt = "".join(_tb.format_exception(et, ev, tb))
+            if "fit_mvstud" in txt and "from_particles" in txt:
+                self.count("run aborted by the listed C14/C18 finding (LinAlgError in ModeStatistics.from_particles); inconclusive for this property")
+                return
         self.failures.append(dict(key=key, what=what, input=inp))
 
     # ---- verdict
